@@ -72,6 +72,16 @@ def run(ctx):
 
     # ---- C03.2 EqualReader::read
     equal_reader_rules(ctx, "C03.2")
+    # ---- C03.8 the reader a request is built over is its own share of the connection, positioned right after its head (otherwise "all remaining
+    # bytes" / "the next N bytes" are taken from somewhere else, or from nowhere): the head reader's rule of C09.4, taken over
+    import rules_C09, engine
+    c2 = engine.Ctx("C03", "quick", facts, 0)
+    try:
+        rules_C09.run(c2)
+        n8 = engine.take_over(ctx, c2.obs, lambda o: o.rule == "C09.4" and o.key.endswith("|request-gets-positioned-reader"), "C03.8")
+        ctx.floor("C03.8 obligations on the reader handed to new_request", n8, 1)
+    except CheckerError as e:
+        ctx.ob("C03.8", "positioned-reader", "the head reader's hand-over of the socket reader could be evaluated", False, "client.rs", str(e))
     return finish_c03(ctx, facts)
 
 
